@@ -257,6 +257,16 @@ class Run:
         self.assumptions = []
         self.anchors = []
         self.notes = []
+        self.skipped = []
+
+    def try_rule(self, fn, *args):
+        """evaluate one rule function; if its analysis cannot proceed (anchor not found, floor missed) the rule is recorded as
+        not evaluated instead of aborting the whole property"""
+        try:
+            return fn(self, *args)
+        except AnalysisIncomplete as e:
+            self.skipped.append({"rule_fn": getattr(fn, "__name__", str(fn)), "reason": str(e)})
+            return None
 
     def rule(self, rid, text):
         self.rules[rid] = text
@@ -362,6 +372,7 @@ def finish(run, t0, explanation, seed=0, replay_key=None):
             "tree_hash": run.facts.hash,
             "engine_timing": run.facts.timing,
             "notes": run.notes,
+            "rules_not_evaluated": run.skipped,
             **getattr(run, "extra_coverage", {}),
         },
         "assumptions": run.assumptions,
